@@ -34,6 +34,7 @@ def debug_logging(on):
         root.setLevel(logging.WARNING)
 
 
+RELOAD = False        # set by c11._drive_reload(): importlib.reload(cardutil.mciipm) between two finalisations
 THREADED = False      # set by isocheck.threaded(): several harness threads drive the library at once; the process-wide
                       # environment switches (Env) and the signal-based watchdog are then left alone
 
@@ -411,6 +412,11 @@ def run_unblocker(blocked, sizes):
             f.seek(len(hdr))
         else:
             f = new_file(blocked)
+        flaky = kind == 0 and not THREADED and pick(5, 'uflaky', len(blocked), sizes[:5]) == 3
+        if flaky:
+            # a source whose read fails once with a transient error (a time-out of a network file) BEFORE anything is
+            # consumed; the caller catches it and repeats the same read on the same unblocker
+            f = FlakyIO(blocked, 2 + pick(4, 'uflakyat', len(blocked), sizes[:3]))
         try:
             # a site subclass that translates what it hands out (EBCDIC-to-ASCII style; here an involution, undone below):
             # what the base class returns to it must be the payload stream itself, for sized and unsized reads alike
@@ -421,7 +427,12 @@ def run_unblocker(blocked, sizes):
             outs = []
             for n in sizes:
                 yield_point()
-                outs.append(u.read() if n == 0 else u.read(n))
+                try:
+                    outs.append(u.read() if n == 0 else u.read(n))
+                except TimeoutError:
+                    if not flaky:
+                        raise
+                    outs.append(u.read() if n == 0 else u.read(n))
             if sub:
                 outs = [o.translate(_FLIP) if isinstance(o, (bytes, bytearray)) else o for o in outs]
         finally:
@@ -429,6 +440,19 @@ def run_unblocker(blocked, sizes):
                 f.close()
                 os.unlink(gz)
     return outs
+
+
+class FlakyIO(io.BytesIO):
+    def __init__(self, data, fail_at):
+        super().__init__(data)
+        self.calls = 0
+        self.fail_at = fail_at
+
+    def read(self, *a):
+        self.calls += 1
+        if self.calls == self.fail_at:
+            raise TimeoutError('transient: nothing was consumed')
+        return super().read(*a)
 
 
 _FLIP = bytes(255 - i for i in range(256))
@@ -566,6 +590,11 @@ def _vbs_write_history(f, recs, blocked, fins, api, peek, events, pipe):
             yield_point()
             w.write(r)
         for i, x in enumerate(fins):
+            if RELOAD and i == 1:
+                # the application re-loads the module between two finalisations (hot reload of a long-running service,
+                # an interactive session): the writer object lives on, its file is finalised already
+                import importlib
+                importlib.reload(mciipm)
             if x == 'exit':
                 with w:
                     pass
